@@ -166,6 +166,47 @@ def spread_model(assertions, extra, inputs, eps=None, per_query_ms=300, budget_s
     return best
 
 
+def faithful_round_model(assertions, extra, timeout=6000):
+    """Witness in which every application of the uninterpreted round_n is a value the real round()
+    can return: an integer multiple of 10^-n (the contract |R(x)-x| <= ulp/2 is already asserted).
+    Used only for witnesses of refuted checks (as an exploration-time axiom it is too slow: probe P15)."""
+    apps = {}
+
+    def walk(t, seen):
+        if t.get_id() in seen:
+            return
+        seen.add(t.get_id())
+        if z3.is_app(t):
+            name = t.decl().name()
+            if name.startswith("sx_round_") and name != "sx_round_int" and t.num_args() == 1:
+                apps[t.get_id()] = t
+            for c in t.children():
+                walk(c, seen)
+
+    seen = set()
+    for a in list(assertions) + ([extra] if extra is not None else []):
+        walk(a, seen)
+    if not apps:
+        return None
+    s = z3.Solver()
+    s.set("timeout", timeout)
+    for a in assertions:
+        s.add(a)
+    if extra is not None:
+        s.add(extra)
+    for i, t in enumerate(apps.values()):
+        nd = t.decl().name()[len("sx_round_") :].replace("m", "-")
+        try:
+            n = int(nd)
+        except ValueError:
+            continue
+        k = z3.Int(f"rk!{i}")
+        s.add(t * z3.RealVal(10**n if n >= 0 else 1) == z3.ToReal(k) * (1 if n >= 0 else z3.RealVal(10 ** (-n))))
+    if s.check() == z3.sat:
+        return s.model()
+    return None
+
+
 class _ModelAdapter:
     """model living in another z3 context; evaluates main-context terms"""
 
@@ -580,13 +621,22 @@ class Ctx:
             else:
                 self.spread_inputs = None
         inputs = self.model_inputs(model)
+        alts = []
+        if getattr(self, "spread_inputs", None):
+            alts.append(self.spread_inputs)
+        try:
+            fm = faithful_round_model(self.assertions, extra_)
+        except z3.Z3Exception:
+            fm = None
+        if fm is not None:
+            alts.append({k: str(v) for k, v in self.model_inputs(fm).items()})
         self.failures.append(
             Failure(
                 label,
                 {k: str(v) for k, v in inputs.items()},
                 detail,
                 tuple(self.decisions),
-                alt_inputs=getattr(self, "spread_inputs", None),
+                alt_inputs=alts or None,
             )
         )
         self._last_failure_model = model
